@@ -89,6 +89,9 @@ func (p *Path) prim(fn *ssa.Function, args []Value) Value {
 	case "vFinding":
 		p.regions = append(p.regions, region{id: concreteString(args[0], "finding id"), cond: asBoolVal(args[1])})
 		return nil
+	case "vFindingClause":
+		p.regions = append(p.regions, region{id: concreteString(args[0], "finding id"), clause: concreteString(args[1], "clause"), cond: asBoolVal(args[2])})
+		return nil
 	case "vTerminates":
 		p.termStep = int(concreteInt(args[0], "vTerminates budget"))
 		if p.termStep > 0 && p.termStep < p.maxSteps {
